@@ -217,7 +217,7 @@ func init() {
 	})
 	property(&Property{
 		ID:    "C09",
-		Rules: []string{"UC-1"},
+		Rules: []string{"UC-1", "OR-2"},
 		Explain: "UC-1: in the functions reachable from the used-type collector and from the link checker (callback-aware call graph), each carrier of a user-type reference is consulted: the types list (type shortcuts, or), the type rule, allOf, additionalProperties with a user type, key shortcuts and mixed shortcut values; allOf parents are resolved against the type table when inherited properties are copied.",
 		Assume: []string{
 			"the recursion decision (a least fix-point over arbitrary type graphs), termination of Check/Validate/Example, and exactness/de-duplication of UsedUserTypes are NOT decided by any rule here",
